@@ -375,7 +375,13 @@ class Ctx:
             except Exception as e:      # pylint: disable=broad-except
                 f = library_failure(e, [self.prop_id], "the library, on a generated valid case,")
                 if f is None:
-                    raise
+                    # the harness itself tripped over what the implementation returned (a missing key, an array of
+                    # another length, an attribute that is gone): the correspondence can no longer be established
+                    tb = traceback.extract_tb(e.__traceback__)
+                    fr = tb[-1]
+                    return Failure("corr", f"[{self.prop_id}] the harness could not interpret what the implementation "
+                                   f"returned: {type(e).__name__}: {str(e)[:160]} (at {os.path.basename(fr.filename)}:"
+                                   f"{fr.lineno} in {fr.name})")
                 return f
 
         nfail = 0
